@@ -86,7 +86,7 @@ def q(s):
     return "'" + s.replace("'", "'\\''") + "'"
 
 
-def classify(name, desc):
+def classify(name, desc, line=""):
     """Return (class, key).  Classes: obl (our named obligation), post (contract postcondition), reach,
     frame (assigns clause), loop (loop invariant base/step/decreases), pre (callee precondition at a replaced call),
     unwind, safety (CBMC generated)."""
@@ -104,7 +104,7 @@ def classify(name, desc):
     else:
         fn = name.split(".")[0]
     if "ensures clause" in d or "postcondition" in name:
-        return "post", "post:" + fn + ":" + re.sub(r"\s+", " ", d)[:160]
+        return "post", "post:" + fn + "@L" + str(line) + ":" + re.sub(r"\s+", " ", d)[:120]
     if "requires clause" in d or "precondition" in name:
         return "pre", "pre:" + fn
     if "is assignable" in d or "assigns" in name:
@@ -284,8 +284,8 @@ def _run_job(job, prop, hdir, wd, res):
     for p in result:
         name = p.get("property", "")
         desc = p.get("description", "")
-        cls, key = classify(name, desc)
         loc = p.get("sourceLocation") or {}
+        cls, key = classify(name, desc, loc.get("line", ""))
         res.props.append(dict(name=name, desc=desc, cls=cls, key=key, status=p.get("status", ""),
                               function=loc.get("function", ""), file=loc.get("file", "")))
 
